@@ -172,7 +172,8 @@ def run(chk):
         car = cars[k % len(cars)]
         nbh = car.massbins.nbin.BH
         nrow = rng.choice([1, 2, 3, 4])
-        Ts = rng.sample([1.0, 12000.0, 9000.0, 5000.0, 300.0, 100.0], nrow)
+        gate = float(car.compute_tms(car.IFMR.BH_mi.upper))      # BHs exist once the heaviest BH progenitor has died
+        Ts = rng.sample([0.5 * gate, 12000.0, 9000.0, 5000.0, 300.0, 100.0, gate * 1.05, 2.0, 3.0, 5.0, 8.0], nrow)
         strict = rng.random() < 0.5
         rf = [rng.choice([1.0, rng.random()]) for _ in range(nbh)] if rng.random() < 0.3 else None
         rows = []
@@ -199,7 +200,7 @@ def run(chk):
         res, obj, states, warns = run_post(car, [(r[0], r[1], r[2], r[3]) for r in rows], strict, rf)
         case = dict(car=k % len(cars), rows=[dict(T=r[0], f=r[1], M=r[2], N=r[3]) for r in rows], strict=strict, rfac=rf)
         chk.note_distinct(case)
-        formed_rows = [r for r in rows if r[0] > 5.0]
+        formed_rows = [r for r in rows if r[0] > gate]
         infeasible = [r for r in formed_rows if r[1] > r[5] * (1 + 1e-12)]
         knife = [r for r in formed_rows if abs(r[1] - r[5]) <= 1e-12 * r[5] and r[1] != r[5]]
         if knife:
@@ -220,7 +221,7 @@ def run(chk):
             Mk = list(np.array(M) * (np.array(rf) if rf else 1.0))
             Nk = list(np.array(N) * (np.array(rf) if rf else 1.0))
             got_M, got_N = list(map(float, obj.Mr.BH[irow])), list(map(float, obj.Nr.BH[irow]))
-            formed = T > 5.0
+            formed = T > gate
             if not formed:
                 if not (C.all_same(got_M, M) and C.all_same(got_N, N)):
                     chk.fail("BHs untouched before they form", case, dict(row=irow))
